@@ -16,11 +16,29 @@
 //!   sub <key> <actor> <conv>     port.subscribe(actor, conv tagged with key)    -> v2: ok
 //!                                                              v1: held=<h> fin=<f> rx=<r>
 //!   stop <actor>                 actor.stop(None), wait until it is gone         -> ok
+//!   drain <actor>                actor.drain(): refuses messages at once (status Draining), handles
+//!                                its backlog, exits "Drained"; a held actor stays Draining until released
+//!                                                                                -> ok | Draining
 //!   grant port | grant <key>     poll the port task (v2) / forwarding task of subscription
 //!                                <key> (v1) until it parks
 //!                                       -> calls=<key:msg,…|-> done=<bool> [held= fin= rx=]
 //!   seq <key>                    what the subscriber received under <key>        -> o,o,…|-
 //!   dispatch <ad> <dead> <subs> <batch>   (v2 build) real dispatch_batch         -> trace | keys
+//!   pubcheck <m>                 (v1) a publisher THREAD runs the real send(m) up to the schedule point
+//!                                between receiver_count() and tx.send()    -> parked | skipped | closed
+//!   pubstore                     the oldest parked publisher performs its tx.send -> ok | none
+//!   drop                         drop the OutputPort (the last sender; v1: also the JoinHandles,
+//!                                which detaches the forwarding tasks)            -> ok
+//!                                afterwards: pub / sub -> closed; a grant must end with done=true
+//!
+//! converter `suicide`: identity which, called with an original message m (m % 8 == 6), calls
+//! `drain()` on its OWN subscriber actor before returning Some(m): the subscriber stops accepting in
+//! the middle of a batch (v2) / of a forwarding iteration (v1), the send of that very message fails.
+//!
+//! converter `echo`: identity which, when called with an original message m (m < ECHO_BASE,
+//! m % 4 == 0), publishes m + ECHO_BASE*(key+1) on the very same port from INSIDE the converter
+//! call (through a `Weak`): a publication landing in the middle of a poll of the port task /
+//! forwarding task.
 //!
 //! usage: outport --seed S --cases N --out DIR [--replay-ops f1,f2 --only-replay 1]
 
@@ -31,6 +49,7 @@ use ractor::{Actor, ActorProcessingErr, ActorRef, OutputPort};
 
 const V2: bool = cfg!(feature = "outport-v2");
 const CONVS: [&str; 6] = ["all", "even", "odd", "none", "dbl", "m3"];
+const ECHO_BASE: u64 = 100_000;
 
 fn conv(kind: &str, m: u64) -> Option<u64> {
     match kind {
@@ -39,11 +58,36 @@ fn conv(kind: &str, m: u64) -> Option<u64> {
         "odd" => (m % 2 == 1).then_some(m),
         "none" => None,
         "dbl" => Some(2 * m),
+        "echo" | "dropper" | "suicide" => Some(m),
         _ => (m % 3 == 0).then_some(m + 1000),
     }
 }
 
 type Received = Arc<Mutex<Vec<(u64, u64)>>>;
+
+/// every converter call `(key, msg)` of the running case, in call order
+static CALLS: Mutex<Vec<(u64, u64)>> = Mutex::new(Vec::new());
+/// key of the (single) subscription of the case made through `OutputPortSubscriberTrait`
+/// publications made from inside a converter call (statistics)
+static REPUBS: std::sync::atomic::AtomicU64 = std::sync::atomic::AtomicU64::new(0);
+/// subscribers drained from inside their own converter call (statistics)
+static SUICIDES: std::sync::atomic::AtomicU64 = std::sync::atomic::AtomicU64::new(0);
+/// port drops performed from inside a converter call (statistics)
+static MIDDROPS: std::sync::atomic::AtomicU64 = std::sync::atomic::AtomicU64::new(0);
+static FROM_KEY: std::sync::atomic::AtomicU64 = std::sync::atomic::AtomicU64::new(u64::MAX);
+
+/// the recorder actors' message: `(subscription key, converted value)`
+struct RMsg(u64, u64);
+
+/// `ActorRef<O>: OutputPortSubscriberTrait<I>` needs `O: From<I>`; its converter is
+/// `|msg| Some(O::from(msg))`, so this `from` IS the converter call of that subscription
+impl From<u64> for RMsg {
+    fn from(m: u64) -> Self {
+        let k = FROM_KEY.load(std::sync::atomic::Ordering::SeqCst);
+        CALLS.lock().unwrap().push((k, m));
+        RMsg(k, m)
+    }
+}
 
 struct Recorder;
 
@@ -51,7 +95,7 @@ struct Recorder;
 type RecorderArgs = (Received, Option<tokio::sync::oneshot::Receiver<()>>);
 
 impl Actor for Recorder {
-    type Msg = (u64, u64);
+    type Msg = RMsg;
     type State = Received;
     type Arguments = RecorderArgs;
     async fn pre_start(&self, _: ActorRef<Self::Msg>, a: RecorderArgs) -> Result<Received, ActorProcessingErr> {
@@ -61,7 +105,7 @@ impl Actor for Recorder {
         Ok(a.0)
     }
     async fn handle(&self, _: ActorRef<Self::Msg>, m: Self::Msg, st: &mut Received) -> Result<(), ActorProcessingErr> {
-        st.lock().unwrap().push(m);
+        st.lock().unwrap().push((m.0, m.1));
         Ok(())
     }
 }
@@ -86,11 +130,14 @@ fn show_list(v: &[u64]) -> String {
     }
 }
 
+type PortCell = Arc<Mutex<Option<Arc<OutputPort<u64>>>>>;
+
 struct World {
     ctl: Arc<ractor::verif::Controller>,
-    port: Option<OutputPort<u64>>,
-    actors: Vec<(ActorRef<(u64, u64)>, Received)>,
-    calls: Arc<Mutex<Vec<(u64, u64)>>>,
+    /// the only strong handle of the port; a `dropper` converter shares the cell and empties it
+    /// from inside a converter call
+    port: PortCell,
+    actors: Vec<(ActorRef<RMsg>, Received)>,
     /// gates of the actors still held in `pre_start`
     gates: Vec<Option<tokio::sync::oneshot::Sender<()>>>,
     /// controller tasks that are subscriber actors' message loops (an actor released from
@@ -100,6 +147,10 @@ struct World {
     tasks: std::collections::HashMap<u64, usize>,
     /// number of `pub` ops so far, and its value at the last grant of each task (statistics)
     npub: u64,
+    /// publications since the last grant of any task
+    unpolled: u64,
+    /// publisher threads parked between `receiver_count()` and `tx.send()`
+    inflight: std::collections::VecDeque<(Arc<ractor::verif::ThreadCtl>, std::thread::JoinHandle<()>)>,
     last_grant: std::collections::HashMap<usize, u64>,
 }
 
@@ -125,8 +176,10 @@ impl World {
         settle().await;
         let ctl = ractor::verif::install();
         // v2: `default()` spawns the port task (controller task 0)
-        let port = OutputPort::<u64>::default();
-        World { ctl, port: Some(port), actors, gates, actor_tasks: vec![], calls: Arc::new(Mutex::new(Vec::new())), tasks: Default::default(), npub: 0, last_grant: Default::default() }
+        let port = Arc::new(OutputPort::<u64>::default());
+        CALLS.lock().unwrap().clear();
+        FROM_KEY.store(u64::MAX, std::sync::atomic::Ordering::SeqCst);
+        World { ctl, port: Arc::new(Mutex::new(Some(port))), actors, gates, actor_tasks: vec![], tasks: Default::default(), npub: 0, unpolled: 0, inflight: Default::default(), last_grant: Default::default() }
     }
 
     /// subscriber actors are not under test: whenever one of their (gated) loops can run, it runs
@@ -150,13 +203,14 @@ impl World {
 
     #[cfg(not(feature = "outport-v2"))]
     fn v1_counts(&self) -> String {
-        let (h, f, r) = self.port.as_ref().unwrap().verif_subscriptions();
+        let (h, f, r) = self.port.lock().unwrap().as_ref().unwrap().verif_subscriptions();
         format!("held={h} fin={f} rx={r}")
     }
 
     async fn grant(&mut self, id: usize, st: &mut Stats) -> String {
         let Some(t) = self.ctl.task(id) else { return "no-such-task".into() };
         let behind = self.npub - self.last_grant.insert(id, self.npub).unwrap_or(0);
+        self.unpolled = 0;
         if !t.is_done() {
             if V2 && behind > 32 {
                 st.bump("v2_grant_backlog_over_32");
@@ -165,7 +219,7 @@ impl World {
                 st.bump("v1_grant_backlog_over_16");
             }
         }
-        self.calls.lock().unwrap().clear();
+        CALLS.lock().unwrap().clear();
         let mut rounds = 0;
         loop {
             if t.is_done() {
@@ -178,8 +232,12 @@ impl World {
                 break;
             }
         }
-        let c = self.calls.lock().unwrap().clone();
+        let c = CALLS.lock().unwrap().clone();
         st.add("converter_calls", c.len() as u64);
+        if self.port.lock().unwrap().is_none() && rounds > 0 {
+            st.bump("grant_after_drop_ran");
+            st.add("converter_calls_after_drop", c.len() as u64);
+        }
         if rounds > 0 && t.is_done() {
             st.bump("grant_task_ended");
         }
@@ -201,8 +259,71 @@ impl World {
         match w.as_slice() {
             ["pub", m] => {
                 st.bump("pub");
+                let guard = self.port.lock().unwrap();
+                let Some(port) = guard.as_ref() else { return "closed".into() };
                 self.npub += 1;
-                self.port.as_ref().unwrap().send(m.parse().unwrap());
+                self.unpolled += 1;
+                let u = self.unpolled;
+                st.0.entry("max_publications_accepted_while_no_task_was_polled".into()).and_modify(|x| *x = (*x).max(u)).or_insert(u);
+                let before = CALLS.lock().unwrap().len();
+                // every forwarding task / the port task is gated: the call returns without any of them running
+                port.send(m.parse().unwrap());
+                let inline = CALLS.lock().unwrap().len() - before;
+                if inline == 0 { "ok".into() } else { format!("ok inline-converter-calls={inline}") }
+            }
+            #[cfg(not(feature = "outport-v2"))]
+            ["pubcheck", m] => {
+                st.bump("pubcheck");
+                let m: u64 = m.parse().unwrap();
+                let p = {
+                    let guard = self.port.lock().unwrap();
+                    let Some(port) = guard.as_ref() else { return "closed".into() };
+                    port.clone()
+                };
+                let ctl = ractor::verif::ThreadCtl::new();
+                let c2 = ctl.clone();
+                let h = std::thread::spawn(move || {
+                    ractor::verif::thread_register(c2.clone());
+                    let r = std::panic::catch_unwind(std::panic::AssertUnwindSafe(|| p.send(m)));
+                    drop(p);
+                    ractor::verif::thread_unregister();
+                    c2.finish();
+                    if let Err(e) = r {
+                        std::panic::resume_unwind(e);
+                    }
+                });
+                match ctl.wait_parked() {
+                    ractor::verif::ThreadPhase::AtPoint(_) => {
+                        st.bump("publisher_parked_between_check_and_store");
+                        self.inflight.push_back((ctl, h));
+                        "parked".into()
+                    }
+                    _ => {
+                        let _ = h.join();
+                        self.npub += 1;
+                        "skipped".into()
+                    }
+                }
+            }
+            ["pubstore"] => {
+                let Some((ctl, h)) = self.inflight.pop_front() else { return "none".into() };
+                st.bump("pubstore");
+                ctl.release();
+                ctl.wait_parked();
+                let r = h.join();
+                self.npub += 1;
+                if r.is_ok() { "ok".into() } else { "panicked".into() }
+            }
+            ["drop"] => {
+                if !self.inflight.is_empty() {
+                    return "busy".into();
+                }
+                st.bump("drop");
+                let taken = self.port.lock().unwrap().take();
+                if let Some(p) = taken {
+                    assert_eq!(Arc::strong_count(&p), 1, "the harness holds the only handle");
+                    drop(p);
+                }
                 "ok".into()
             }
             ["sub", key, actor, kind] => {
@@ -210,12 +331,62 @@ impl World {
                 let key: u64 = key.parse().unwrap();
                 let a: usize = actor.parse().unwrap();
                 let kind = kind.to_string();
-                let calls = self.calls.clone();
                 let before = self.ctl.len();
-                self.port.as_ref().unwrap().subscribe(self.actors[a].0.clone(), move |m: u64| {
-                    calls.lock().unwrap().push((key, m));
-                    conv(&kind, m).map(|o| (key, o))
+                let guard = self.port.lock().unwrap();
+                let Some(port) = guard.as_ref() else { return "closed".into() };
+                let weak = Arc::downgrade(port);
+                let echo = kind == "echo";
+                if echo {
+                    st.bump("sub_echo");
+                }
+                let dropper = kind == "dropper";
+                if dropper {
+                    st.bump("sub_dropper");
+                }
+                let cell = self.port.clone();
+                // `suicide`: the converter drains its OWN subscriber from inside the call, before returning
+                // Some: the subscriber stops accepting in the middle of a batch / of an iteration
+                let suicide = kind == "suicide";
+                if suicide {
+                    st.bump("sub_suicide");
+                }
+                let own = self.actors[a].0.clone();
+                if kind == "from" {
+                    // the public trait-object route: `Box<dyn OutputPortSubscriberTrait<u64>>`
+                    if FROM_KEY.load(std::sync::atomic::Ordering::SeqCst) != u64::MAX {
+                        return "bad-op".into();
+                    }
+                    st.bump("sub_from_trait");
+                    FROM_KEY.store(key, std::sync::atomic::Ordering::SeqCst);
+                    let b: ractor::port::OutputPortSubscriber<u64> = Box::new(self.actors[a].0.clone());
+                    b.subscribe_to_port(port);
+                } else {
+                port.subscribe(self.actors[a].0.clone(), move |m: u64| {
+                    CALLS.lock().unwrap().push((key, m));
+                    if echo && m < ECHO_BASE && m % 4 == 0 {
+                        // a publication from inside the converter call = in the middle of the poll
+                        if let Some(p) = weak.upgrade() {
+                            p.send(m + ECHO_BASE * (key + 1));
+                            REPUBS.fetch_add(1, std::sync::atomic::Ordering::SeqCst);
+                        }
+                    }
+                    if suicide && m < ECHO_BASE && m % 8 == 6 {
+                        let _ = own.drain();
+                        SUICIDES.fetch_add(1, std::sync::atomic::Ordering::SeqCst);
+                    }
+                    if dropper && m < ECHO_BASE && m % 8 == 4 {
+                        // the port is dropped from inside the converter call = in the middle of the poll
+                        let taken = cell.lock().unwrap().take();
+                        if let Some(p) = taken {
+                            assert_eq!(Arc::strong_count(&p), 1);
+                            drop(p);
+                            MIDDROPS.fetch_add(1, std::sync::atomic::Ordering::SeqCst);
+                        }
+                    }
+                    conv(&kind, m).map(|o| RMsg(key, o))
                 });
+                }
+                drop(guard);
                 #[cfg(not(feature = "outport-v2"))]
                 {
                     assert_eq!(self.ctl.len(), before + 1, "subscribe spawns exactly one forwarding task");
@@ -252,6 +423,15 @@ impl World {
                 let s = self.actors[a].0.get_status();
                 if s == ractor::ActorStatus::Stopped { "ok".into() } else { format!("{s:?}") }
             }
+            ["drain", actor] => {
+                st.bump("drain");
+                let a: usize = actor.parse().unwrap();
+                let _ = self.actors[a].0.drain();
+                settle().await;
+                self.pump_actors().await;
+                let s = self.actors[a].0.get_status();
+                if s == ractor::ActorStatus::Stopped { "ok".into() } else { format!("{s:?}") }
+            }
             ["grant", "port"] => {
                 st.bump("grant");
                 self.grant(0, st).await
@@ -264,7 +444,7 @@ impl World {
                     Some(id) => {
                         let r = self.grant(id, st).await;
                         #[cfg(not(feature = "outport-v2"))]
-                        let r = format!("{r} {}", self.v1_counts());
+                        let r = if self.port.lock().unwrap().is_some() { format!("{r} {}", self.v1_counts()) } else { r };
                         r
                     }
                 }
@@ -296,7 +476,12 @@ impl World {
             }
         }
         // let every gated task run to its end so nothing stays parked forever
-        self.port = None;
+        while let Some((ctl, h)) = self.inflight.pop_front() {
+            ctl.release();
+            let _ = h.join();
+        }
+        let last = self.port.lock().unwrap().take();
+        drop(last);
         for t in self.ctl.tasks() {
             for _ in 0..200 {
                 if t.is_done() {
@@ -353,6 +538,15 @@ fn gen_case(rng: &mut Rng, n: u64) -> Vec<String> {
     let burst_max = *rng.pick(&[3u64, 3, 8, 20, 40, 70]);
     let grant_w = *rng.pick(&[5u64, 15, 30]);
     let stop_w = *rng.pick(&[0u64, 2, 2, 8]);
+    // a third of the cases have re-entrant converters (on actor 0, which is then never stopped:
+    // a v1 task whose cast is rejected in the very call that published is finer than a model step)
+    let echo_case = rng.chance(1, 3);
+    // a third of the cases drop the port somewhere in the second half
+    let drop_at = if rng.chance(1, 3) { Some(rng.range(steps / 2, steps - 1)) } else { None };
+    let mut dropped = false;
+    let mut from_used = false;
+    // publisher threads parked inside `send` (v1, not with re-entrant converters)
+    let mut inflight = 0u32;
     let grant_all = |ops: &mut Vec<String>, keys: &[u64], rng: &mut Rng| {
         if V2 {
             ops.push("grant port".into());
@@ -364,9 +558,49 @@ fn gen_case(rng: &mut Rng, n: u64) -> Vec<String> {
             }
         }
     };
-    for _ in 0..steps {
+    for step in 0..steps {
+        if drop_at == Some(step) {
+            for _ in 0..inflight {
+                ops.push("pubstore".into());
+            }
+            inflight = 0;
+            ops.push("drop".into());
+            dropped = true;
+        }
+        if inflight > 0 && rng.chance(1, 3) {
+            ops.push("pubstore".into());
+            inflight -= 1;
+        }
+        if !V2 && !echo_case && !dropped && rng.chance(1, 8) {
+            if !keys.is_empty() && rng.chance(1, 3) {
+                // every receiver disappears between the check and the store
+                for a in 0..nactors {
+                    ops.push(format!("drain {a}"));
+                }
+                ops.push(format!("pub {next_msg}"));
+                ops.push(format!("pubcheck {}", next_msg + 1));
+                next_msg += 2;
+                grant_all(&mut ops, &keys, rng);
+                ops.push("pubstore".into());
+                continue;
+            }
+            ops.push(format!("pubcheck {next_msg}"));
+            next_msg += 1;
+            inflight += 1;
+            continue;
+        }
         let k = rng.below(100);
-        if k < 30 {
+        if dropped && k < 50 && rng.chance(4, 5) {
+            // after the drop mostly let the tasks run
+            if V2 {
+                ops.push("grant port".into());
+            } else if !keys.is_empty() {
+                ops.push(format!("grant {}", rng.pick(&keys)));
+            }
+        } else if dropped && keys.is_empty() {
+            ops.push(format!("pub {next_msg}"));
+            next_msg += 1;
+        } else if k < 30 {
             let b = rng.range(1, burst_max);
             for _ in 0..b {
                 ops.push(format!("pub {next_msg}"));
@@ -374,13 +608,29 @@ fn gen_case(rng: &mut Rng, n: u64) -> Vec<String> {
             }
         } else if k < 50 || keys.is_empty() {
             let key = keys.len() as u64;
-            let kind = if rng.chance(1, 2) { "all" } else { *rng.pick(&CONVS) };
-            ops.push(format!("sub {key} {} {kind}", rng.below(nactors)));
-            keys.push(key);
+            if echo_case && rng.chance(1, 3) {
+                ops.push(format!("sub {key} 0 {}", if rng.chance(1, 4) { "dropper" } else { "echo" }));
+            } else if !echo_case && rng.chance(1, 8) {
+                ops.push(format!("sub {key} {} suicide", rng.below(nactors)));
+            } else if !from_used && rng.chance(1, 6) {
+                from_used = true;
+                ops.push(format!("sub {key} {} from", rng.below(nactors)));
+            } else {
+                let kind = if rng.chance(1, 2) { "all" } else { *rng.pick(&CONVS) };
+                ops.push(format!("sub {key} {} {kind}", rng.below(nactors)));
+            }
+            if !dropped {
+                keys.push(key);
+            }
         } else if k < 50 + stop_w {
             // an actor that is still starting cannot be stopped gracefully: only released ones
             let a = rng.below(nactors);
-            if !held.contains(&a) {
+            if echo_case && a == 0 {
+                // never stopped
+            } else if rng.chance(1, 3) {
+                // drain: refuses at once; a held (Starting) actor stays Draining until released
+                ops.push(format!("drain {a}"));
+            } else if !held.contains(&a) {
                 ops.push(format!("stop {a}"));
             } else if rng.chance(1, 2) {
                 held.retain(|x| *x != a);
@@ -399,9 +649,15 @@ fn gen_case(rng: &mut Rng, n: u64) -> Vec<String> {
             ops.push(format!("seq {}", rng.pick(&keys)));
         }
     }
+    for _ in 0..inflight {
+        ops.push("pubstore".into());
+    }
     // what everybody has at an arbitrary point, then at quiescence
     for k in &keys {
         ops.push(format!("seq {k}"));
+    }
+    if !dropped && rng.chance(1, 5) {
+        ops.push("drop".into());
     }
     if rng.chance(1, 2) {
         for a in held.drain(..) {
@@ -428,7 +684,9 @@ fn gen_case(rng: &mut Rng, n: u64) -> Vec<String> {
 #[cfg(feature = "outport-v2")]
 mod pure {
     use super::*;
-    use ractor::port::output::verif_hooks::{dispatch_dying, Item, SubSpec};
+    use ractor::port::output::verif_hooks::{Item, SubSpec};
+    // the REAL `Filtering` subscriber (what `OutputPort::subscribe` creates) around a fake actor reference
+    use ractor::port::output::verif_hooks2::dispatch_filtering as dispatch_dying;
 
     fn kind_ix(k: &str) -> u8 {
         CONVS.iter().position(|c| *c == k).unwrap() as u8
@@ -610,6 +868,9 @@ async fn main() {
             }
         }
     }
+    st.add("reentrant_pub_inside_converter_call", REPUBS.load(std::sync::atomic::Ordering::SeqCst));
+    st.add("subscriber_drained_inside_its_own_converter_call", SUICIDES.load(std::sync::atomic::Ordering::SeqCst));
+    st.add("port_dropped_inside_converter_call", MIDDROPS.load(std::sync::atomic::Ordering::SeqCst));
     st.add("lines", log.lines);
     st.write_json(&std::path::Path::new(&out).join("stats.json"));
     log.finish();
